@@ -7,6 +7,7 @@ mod checks;
 mod core;
 mod eng_a;
 mod eng_b;
+mod eng_c;
 mod json;
 mod prng;
 mod runner;
